@@ -18,6 +18,17 @@ PROVED = [
     '[P] td_is_prime_spec: the trial-division is_prime of primes.rs decides Znumtheory.prime (fuel suffices)',
     '[P, partial correctness] primes_take_spec: a result of Primes::new().take(k) has length k, is strictly increasing and '
     'is exactly the set of primes up to its last element (= the first k primes)',
+    '[P] bertrand: Bertrand\'s postulate, for every integer n >= 1 there is a prime p (Znumtheory.prime) with n < p <= 2n. '
+    'Erdos\' proof, fully in Coq, no axiom: 4^n <= 2n*C(2n,n); Legendre\'s formula gives p^(v_p C(2n,n)) <= 2n, v_p <= 1 for p > sqrt(2n), '
+    'v_p = 0 for 2n/3 < p <= n; the product of the primes <= m is <= 4^m (via C(2k+1,k) <= 4^k); for n >= 1024 no prime in (n,2n] would give '
+    '4^n <= (2n)^(sqrt(2n)+2) * 4^(2n/3), refuted in integer arithmetic (cube, compare powers of 2, 9(k+1)^2 <= 2^(k-1) for k >= 12); n < 1259 by the '
+    'prime chain 2,3,5,7,13,23,43,83,163,317,631,1259 (Refine/BertrandBin.v, BertrandVal.v, BertrandMain.v over MathComp nat; BertrandZ.v bridges to Z)',
+    '[P] primes_next_total: for every now >= 1 one next() of the iterator model returns within the now + 2 candidates it is given '
+    '(never OutOfFuel): Done (p, p + 1) with p the least prime >= now, and p <= 2*now',
+    '[P] primes_take_total: for EVERY k, Primes::new().take(k) of the model returns Done l with l of length k, strictly increasing, all prime, '
+    'containing every prime below any of its elements (= the first k primes): total correctness, fuel sufficiency included',
+    '[P] primes_iter_complete: the iterator enumerates all primes, every prime q is among its first q outputs; primes_take_snoc: take k is a '
+    'prefix of take (k+1), so the k-th output is the k-th prime, in increasing order',
     '[P] kronecker_range: result in {-1,0,1} whenever the routine returns (all integers, both profiles)',
     '[P] kronecker_b0 ((a/0) = [|a| = 1]) and kronecker_both_even (0)',
     '[P] kronecker_total: for all a, b in the i64 range, dev and release profile, the routine returns: no overflow panic '
@@ -40,21 +51,22 @@ PROVED = [
     'odd positive m, n, coprime or not (Refine/RecipJacobi.v, RecipKronecker.v)',
 ]
 NOT_PROVED = [
-    'prime iterator: that the fuel of one next() (now + 2 candidates) always suffices (Bertrand\'s postulate); primes_take_spec excludes OutOfFuel by hypothesis',
     'BigInt::nth_root itself (num\'s Newton iteration) is not modelled: the model uses a bit-by-bit floor root, tied to the code by correspondence only',
 ]
 
 CLAIM = dict(
     technique='Coq proofs about the Gallina model (inv/zmod/perfect_power/sieve/prime iterator/kronecker) + extracted-model-vs-implementation correspondence',
     text='The theorems of coq/Props/C19.v: modular inverse, zmod, floor root, perfect power, sieve, trial-division primality, '
-         'Kronecker range / b = 0 / both-even / totality on i64 hold for all integers (no bound); the prime iterator is proved partially '
-         'correct; kronecker_spec: the model of kronecker_symbol_i64 returns the Kronecker symbol K a b (defined from the definition: sign, '
+         'Kronecker range / b = 0 / both-even / totality on i64 hold for all integers (no bound); the prime iterator is proved totally '
+         'correct for every k (take(k) returns exactly the first k primes in increasing order, every prime is eventually produced; the fuel of one '
+         'next(), now + 2 candidates, suffices by Bertrand\'s postulate, which is proved in Coq by Erdos\' argument); kronecker_spec: the model of kronecker_symbol_i64 returns the Kronecker symbol K a b (defined from the definition: sign, '
          '(a/2) table, Euler criterion over the prime factorisation of |b|) for ALL a, b in the i64 range in both build profiles; the '
          'number theory it needs (Euler\'s criterion, Gauss\'s lemma, supplementary laws, quadratic reciprocity, Jacobi-symbol laws) is proved in Coq, '
          'nothing assumed. The bounded enumeration theorem (|a|,|b| <= 128 against kron_ref) is kept and kron_ref = K on that box. The model is '
          'tied to /repo by running the extracted model and impl_svc on the same inputs (exhaustive boxes + random big integers + i64 '
          'extremes), with independent oracles.',
-    note='Not proved: iterator fuel sufficiency (Bertrand); BigInt::nth_root is modelled by a floor-root routine, not num\'s Newton iteration. '
+    note='Not proved: BigInt::nth_root is modelled by a floor-root routine, not num\'s Newton iteration. The iterator theorems are about the '
+         'model over unbounded Z; the code\'s usize state (and d*d in is_prime) would only overflow for primes near 2^64, unreachable by iteration. '
          'Trusted base listed in the evidence file.',
     ref='DESIGN.md section 4, C19')
 
